@@ -65,6 +65,7 @@ def req_pass(rep, fn, label, pred, consumed=True, want_args=None):
     return sites
 
 
+DEC_ENUM = ["DecodeNode"]   # the decoder's private enum on the analysed tree (c01.codec_names), set in run()
 DN_NAME = ["decode_node"]    # the name of the node decoder on the analysed tree (see c01.decode_node_fn), set in run()
 VOCAB = ("decode_expression", "decode_node", "close", "read_natural", "finalize_types", "is_shared_as", "with_context", "convert",
          "set_arrow_to_program", "from_bits", "read_bit", "read_u2", "read_u8")
@@ -208,6 +209,7 @@ def run(ctx, rep):
     F = ctx.facts("full")
     dnf = c01.decode_node_fn(F)
     DN_NAME[0] = dnf.name if dnf is not None else "decode_node"
+    DEC_ENUM[0] = c01.codec_names(F)["dec_enum"]
     VOCAB = tuple(x for x in VOCAB if x != DN_NAME[0]) + (DN_NAME[0],)
     rep.rule("C02.must", "canonicity checks lie on every success path and their verdicts are consumed")
     rep.rule("C02.bound", "decoded indices/lengths are guarded by the matching bound before arithmetic")
@@ -309,8 +311,8 @@ def run(ctx, rep):
             else:
                 # inside the Hidden arm of the DecodeNode switch
                 inarm = False
-                for b, si in enum_switches(de, "::DecodeNode"):
-                    tgt = si[2].get("Hidden")
+                for b, si in enum_switches(de, "::" + c01.codec_names(F)["dec_enum"]):
+                    tgt = si[2].get(_hidden_variant(F))
                     if tgt is not None and cs.bb in de.dominated_by(tgt):
                         inarm = True
                 if inarm:
@@ -465,6 +467,9 @@ def run(ctx, rep):
                     rep.ok("C02.alloc", key, show(t))
                 elif p == DEC + "decode_expression" and not origin and _after_node_loop(f, cs):
                     rep.ok("C02.alloc", key + " (after decoding len nodes)", "capacity len is reached only after len nodes were decoded from the input, so it is bounded by the input length")
+                elif t[0] == "call" and t[2] == "len" and ("[T]>::len" in str(t[1]) or "Vec" in str(t[1])):
+                    # the length of a vector/slice that already exists (the decoded nodes): bounded by memory already held
+                    rep.ok("C02.alloc", key + " (length of an existing vector)", show(t)[:80])
                 elif (origin or p).startswith("simplicity::value::") and (cs.name == "from_elem" or tainted == {"bit_width"}):
                     # building a Value of a given type allocates its width: callers on the decode path are
                     # Value::zero (not reachable from decoders in practice) and product (inputs already exist)
@@ -503,6 +508,17 @@ def _some_const(t):
     return None
 
 
+def _hidden_variant(F):
+    """the decoder enum's variant for a hidden node: the one whose payload is a CMR"""
+    dn = c01.codec_names(F)["dec_enum"]
+    for a in F.adts.values():
+        if a["path"].startswith("simplicity::bit_encoding::") and a["path"].endswith("::" + dn):
+            hv = [v["name"] for v in a["variants"] if any(fld["ty"].endswith("merkle::cmr::Cmr") for fld in v["fields"])]
+            if len(hv) == 1:
+                return hv[0]
+    return "Hidden"
+
+
 def _ctor_after(fn, b):
     """name of the first DecodeNode variant built after block b (to label a subtraction site)."""
     seen = set()
@@ -514,7 +530,7 @@ def _ctor_after(fn, b):
             continue
         seen.add(x)
         for s in fn.blocks[x]["s"]:
-            if s[0] == "=" and s[2].get("k") == "agg" and s[2].get("adt", "").endswith("DecodeNode"):
+            if s[0] == "=" and s[2].get("k") == "agg" and s[2].get("adt", "").endswith(DEC_ENUM[0]):
                 names.append(s[2]["variant"])
         stack.extend(fn.succ_map()[x])
     return "/".join(sorted(set(names))[:4]) or "?"
